@@ -13,6 +13,7 @@ import re
 import subprocess
 import time
 from .. import core
+from . import _c08_micro
 
 SUB = "threadqueues/sherwood_threadqueues.c"
 LEVEL = "proof"
@@ -686,9 +687,13 @@ def run(ctx):
                    configs={"stress": stress_cfgs, "need_steal": ncfgs, "yield_order": "1x1"},
                    correspondence_mismatches=len(mismatches))
     ctx.assumptions += [
-        "operations of one queue are atomic (executed under q->qlock): modelled; exercised by the concurrent stress runs, not proved",
-        "the unlocked peeks (q->head, qlength_stealable, myqueue->qlength read before the lock) are advisory hints that can only delay",
-        "pointer layer: proved per operation in Coq (PtrProofs.v) but not executed; the real code's links are checked at run time by the two-direction pointer walk after every command",
+        "list layer: operations of one queue are atomic (executed under q->qlock); that enqueue / enqueue_yielded / the owner pop / the steal scan / enqueue_multiple "
+        "really are atomic under every schedule is the micro-step layer's theorem tq_micro_refines_atomic (TQueue/Micro.v, replayed on the real code, extension E); "
+        "dequeue_specific, filter and qt_threadqueue_free are not in the micro machine",
+        "the unlocked peeks (q->head, qlength_stealable twice, myqueue->qlength, shepherd->stealing read before the lock) are separate steps of the micro machine "
+        "(tq_peek_safe: they can only cause a skipped attempt or a locked re-check)",
+        "pointer layer: every queue operation incl. the whole steal scan loop, the surplus cut and dequeue_specific is proved to refine the list layer "
+        "(PtrProofs.v, PtrScanProofs.v) and the extracted pointer machine is executed next to the real code (forward walk, backward walk, head, tail, both counters compared)",
         "spawn cache, task aggregation, local priority queue, eurekas are compiled out in the configured build and not modelled",
         "OS-level fairness of the worker pthreads (an idle thief eventually gets the CPU) is assumed"]
     ctx.notes.append("fixed finding mccoy-requeue-starvation: before the fix a worker other than worker 0 popped the McCoy (main) task and re-queued it "
@@ -707,6 +712,8 @@ def run(ctx):
         else:
             ctx.violation("broken", what, {"theorem_or_correspondence": ("impl != TQueue.Model (%s)" % mismatches[0][0]) if mismatches else pr["file"],
                                            "first_mismatch": mismatches[0] if mismatches else None, "coq_log": pr["log"][-1500:]}, no_input=True)
+    # ---------------- extension E: pointer layer completed (heap shape compared) + lock-level micro-step layer (M3 replay)
+    _c08_micro.run_micro(ctx, quick)
 
 
 def replay(ctx, path):
@@ -733,5 +740,7 @@ def replay(ctx, path):
         if not mo or got != mo[0]:
             why = prog_oracle(rep["case"], None if got is None else [int(x) for x in got.split()[1:] if x.isdigit()])
             ctx.violation("yield-oracle" if why else "broken", why or "impl != model", rep, no_input=not why)
+    elif rep.get("mode") in ("ptr-shape", "micro"):
+        _c08_micro.replay(ctx, rep)
     else:
         run(ctx)
